@@ -7,7 +7,7 @@
     Props/C07.vo — stops compiling.  The second half restates the property theorems about the assembled programs. *)
 From Coq Require Import Permutation Sorting.Sorted Qround PrimFloat.
 From PV Require Import Lib.Common Lib.FloatK Model.C17_Sampling Proofs.C17_Sampling Model.C07_Config
-  Proofs.C07_LocalOpt Proofs.C07_Tail Proofs.C07_Xmap Proofs.C07_Sort Proofs.C07_Tiled Proofs.C07_RealMateMo Proofs.C07_Integer
+  Proofs.C07_LocalOpt Proofs.C07_Tail Proofs.C07_Xmap Proofs.C07_Sort Proofs.C07_Tiled Proofs.C07_RealMateMo Proofs.C07_Integer Proofs.C07_MateExt
   Gen.C07_Kernel Model.C07_KernelProg.
 Local Open Scope nat_scope.
 
@@ -147,7 +147,26 @@ Proof.
   destruct (Nat.ltb start (length opts)); reflexivity.
 Qed.
 
-(** * 4. the multi-objective choice and the arguments handed to the configuration, for the six protocol bases *)
+Lemma kcfg_binary_mate_model nc np decn xmap choice perm perm2 :
+  kcfg_binary_mate nc np decn xmap choice perm perm2 = cfg_binary_mate nc np decn xmap choice perm perm2.
+Proof.
+  unfold kcfg_binary_mate, cfg_binary_mate, old_cfg_integer_mate, k_bmate_size, k_bmate_replace, k_bmate_lookup. cbv zeta.
+  now rewrite kcfg_shape_ok_model, to_nat_zn.
+Qed.
+Lemma kcfg_real_mate_f_model nc np decn xmap order off perm perm2 :
+  kcfg_real_mate_f nc np decn xmap order off perm perm2 = cfg_real_mate_f nc np decn xmap order off perm perm2.
+Proof.
+  unfold kcfg_real_mate_f, cfg_real_mate_f, k_rmate_size, k_rmate_args, k_rmate_lookup. cbv zeta. cbn [snd].
+  now rewrite kcfg_shape_ok_model, to_nat_zn.
+Qed.
+Lemma kcfg_real_mate_q_model nc np decn xmap order off perm perm2 :
+  kcfg_real_mate_q nc np decn xmap order off perm perm2 = cfg_real_mate_q nc np decn xmap order off perm perm2.
+Proof.
+  unfold kcfg_real_mate_q, cfg_real_mate_q, k_rmate_size, k_rmate_args, k_rmate_lookup. cbv zeta. cbn [snd].
+  now rewrite kcfg_shape_ok_model, to_nat_zn.
+Qed.
+
+(** * 4. the multi-objective choice and the arguments handed to the configuration, for the eight protocol bases *)
 Ltac mo_model pick score row :=
   intros; unfold kselect_mo, select_mo, mo_choice;
   change (kmo_index pick score ?wt ?trans ?front) with (mo_index wt trans front);
@@ -173,6 +192,13 @@ Lemma kselect_mo_imate_model {D C} wt trans front (decns : list D) (cfg : D -> o
   kselect_mo (@k_sel_imate_pick _) k_sel_imate_score k_sel_imate_mo_row wt trans front decns cfg = select_mo wt trans front decns cfg.
 Proof. mo_model (@k_sel_imate_pick (option nat)) k_sel_imate_score k_sel_imate_mo_row. Qed.
 
+Lemma kselect_mo_bmate_model {D C} wt trans front (decns : list D) (cfg : D -> option C) :
+  kselect_mo (@k_sel_bmate_pick _) k_sel_bmate_score k_sel_bmate_mo_row wt trans front decns cfg = select_mo wt trans front decns cfg.
+Proof. mo_model (@k_sel_bmate_pick (option nat)) k_sel_bmate_score k_sel_bmate_mo_row. Qed.
+Lemma kselect_mo_rmate_model {D C} wt trans front (decns : list D) (cfg : D -> option C) :
+  kselect_mo (@k_sel_rmate_pick _) k_sel_rmate_score k_sel_rmate_mo_row wt trans front decns cfg = select_mo wt trans front decns cfg.
+Proof. mo_model (@k_sel_rmate_pick (option nat)) k_sel_rmate_score k_sel_rmate_mo_row. Qed.
+
 (** one objective: the configuration is built from the FIRST row of the solution, whatever the encoding *)
 Definition select_so {D C} (decns : list D) (cfg : D -> option C) : option (D * C) :=
   match decns with
@@ -182,7 +208,8 @@ Definition select_so {D C} (decns : list D) (cfg : D -> option C) : option (D * 
 Lemma kselect_so_model {D C} (decns : list D) (cfg : D -> option C) :
   kselect_so k_sel_subset_so_row decns cfg = select_so decns cfg /\ kselect_so k_sel_real_so_row decns cfg = select_so decns cfg /\
   kselect_so k_sel_integer_so_row decns cfg = select_so decns cfg /\ kselect_so k_sel_binary_so_row decns cfg = select_so decns cfg /\
-  kselect_so k_sel_mate_so_row decns cfg = select_so decns cfg /\ kselect_so k_sel_imate_so_row decns cfg = select_so decns cfg.
+  kselect_so k_sel_mate_so_row decns cfg = select_so decns cfg /\ kselect_so k_sel_imate_so_row decns cfg = select_so decns cfg /\
+  kselect_so k_sel_bmate_so_row decns cfg = select_so decns cfg /\ kselect_so k_sel_rmate_so_row decns cfg = select_so decns cfg.
 Proof. repeat split; destruct decns; reflexivity. Qed.
 
 (** the dispatch on the number of objectives and the cross-design attributes handed to the configuration *)
@@ -193,7 +220,9 @@ Lemma k_sel_dispatch_args (nobj : Z) (a b : nat) (c d : list Z) :
   (k_sel_integer_is_so nobj = so /\ k_sel_integer_is_mo nobj = mo /\ k_sel_integer_so_args a b c d = args /\ k_sel_integer_mo_args a b c d = args) /\
   (k_sel_binary_is_so nobj = so /\ k_sel_binary_is_mo nobj = mo /\ k_sel_binary_so_args a b c d = args /\ k_sel_binary_mo_args a b c d = args) /\
   (k_sel_mate_is_so nobj = so /\ k_sel_mate_is_mo nobj = mo /\ k_sel_mate_so_args a b c d = args /\ k_sel_mate_mo_args a b c d = args) /\
-  (k_sel_imate_is_so nobj = so /\ k_sel_imate_is_mo nobj = mo /\ k_sel_imate_so_args a b c d = args /\ k_sel_imate_mo_args a b c d = args).
+  (k_sel_imate_is_so nobj = so /\ k_sel_imate_is_mo nobj = mo /\ k_sel_imate_so_args a b c d = args /\ k_sel_imate_mo_args a b c d = args) /\
+  (k_sel_bmate_is_so nobj = so /\ k_sel_bmate_is_mo nobj = mo /\ k_sel_bmate_so_args a b c d = args /\ k_sel_bmate_mo_args a b c d = args) /\
+  (k_sel_rmate_is_so nobj = so /\ k_sel_rmate_is_mo nobj = mo /\ k_sel_rmate_so_args a b c d = args /\ k_sel_rmate_mo_args a b c d = args).
 Proof. cbv zeta. repeat split. Qed.
 
 (** * 5. the sorting optimiser *)
@@ -323,6 +352,32 @@ Theorem kcfg_real_q_spec : forall nc np (p : list Q) order off perm pms r,
   local_opt np r.
 Proof. intros nc np p order off perm pms r. rewrite kcfg_real_q_model. apply cfg_real_q_spec. Qed.
 
+Theorem kcfg_binary_mate_spec : forall nc np x xmap choice perm perm2 rows,
+  let opts := rep_from 0 x in
+  is_binary x = true -> 0 < length opts ->
+  NoDup choice -> Forall (fun p => p < length opts) choice -> length choice = nc mod length opts ->
+  Permutation perm (seq 0 nc) -> Permutation perm2 (seq 0 nc) ->
+  kcfg_binary_mate nc np x xmap choice perm perm2 = Some rows ->
+  exists ds, xmap_rows xmap ds = Some rows /\ length rows = nc /\ length ds = nc /\
+    Forall (fun r => length r = np) rows /\
+    (forall d, In d ds -> exists i, d = Z.of_nat i /\ i < length x /\ nth i x 0%Z = 1%Z) /\
+    (forall i, i < length x -> nth i x 0%Z = 1%Z -> nc / length opts <= count_z (Z.of_nat i) ds <= nc / length opts + 1) /\
+    (forall i, i < length x -> nth i x 0%Z = 0%Z -> count_z (Z.of_nat i) ds = 0).
+Proof. intros nc np x xmap choice perm perm2 rows. rewrite kcfg_binary_mate_model. apply cfg_binary_mate_spec. Qed.
+
+Theorem kcfg_real_mate_q_spec : forall nc np (p : list Q) xmap order off perm perm2 rows,
+  Forall (fun x => 0 <= x)%Q p -> (0 < sumQ p)%Q -> Permutation order (seq 0 (length p)) ->
+  nonincr (gather 0%Q p order) = true ->
+  (0 <= off)%Q -> (off < sumQ p / inject_Z (Z.of_nat nc))%Q -> Permutation perm (seq 0 nc) -> Permutation perm2 (seq 0 nc) ->
+  kcfg_real_mate_q nc np p xmap order off perm perm2 = Some rows ->
+  exists ds, xmap_rows xmap ds = Some rows /\ length rows = nc /\ length ds = nc /\
+    Forall (fun r => length r = np) rows /\
+    (forall d, In d ds -> exists i, d = Z.of_nat i /\ i < length p /\ ~ (nth i p 0 == 0)%Q) /\
+    (forall i, i < length p ->
+       (Qfloor (nth i p 0 * inject_Z (Z.of_nat nc) / sumQ p)%Q <= Z.of_nat (count_z (Z.of_nat i) ds)
+        <= Qceiling (nth i p 0 * inject_Z (Z.of_nat nc) / sumQ p)%Q)%Z).
+Proof. intros nc np p xmap order off perm perm2 rows. rewrite kcfg_real_mate_q_model. apply cfg_real_mate_q_spec. Qed.
+
 (** what the protocol accepts at construction, the configuration built by select() accepts — stated about the setters' checks
     as the source has them now *)
 Theorem kproto_args_accepted_by_cfg : forall nc np nm npg,
@@ -345,10 +400,13 @@ Theorem kselect_mo_spec : forall D C wt trans front (decns : list D) (cfg : D ->
   (kselect_mo (@k_sel_integer_pick _) k_sel_integer_score k_sel_integer_mo_row wt trans front decns cfg = Some (d, c) -> mo_choice_post wt trans front decns cfg d c) /\
   (kselect_mo (@k_sel_binary_pick _) k_sel_binary_score k_sel_binary_mo_row wt trans front decns cfg = Some (d, c) -> mo_choice_post wt trans front decns cfg d c) /\
   (kselect_mo (@k_sel_mate_pick _) k_sel_mate_score k_sel_mate_mo_row wt trans front decns cfg = Some (d, c) -> mo_choice_post wt trans front decns cfg d c) /\
-  (kselect_mo (@k_sel_imate_pick _) k_sel_imate_score k_sel_imate_mo_row wt trans front decns cfg = Some (d, c) -> mo_choice_post wt trans front decns cfg d c).
+  (kselect_mo (@k_sel_imate_pick _) k_sel_imate_score k_sel_imate_mo_row wt trans front decns cfg = Some (d, c) -> mo_choice_post wt trans front decns cfg d c) /\
+  (kselect_mo (@k_sel_bmate_pick _) k_sel_bmate_score k_sel_bmate_mo_row wt trans front decns cfg = Some (d, c) -> mo_choice_post wt trans front decns cfg d c) /\
+  (kselect_mo (@k_sel_rmate_pick _) k_sel_rmate_score k_sel_rmate_mo_row wt trans front decns cfg = Some (d, c) -> mo_choice_post wt trans front decns cfg d c).
 Proof.
   intros D C wt trans front decns cfg d c.
-  rewrite kselect_mo_subset_model, kselect_mo_real_model, kselect_mo_integer_model, kselect_mo_binary_model, kselect_mo_mate_model, kselect_mo_imate_model.
+  rewrite kselect_mo_subset_model, kselect_mo_real_model, kselect_mo_integer_model, kselect_mo_binary_model, kselect_mo_mate_model, kselect_mo_imate_model,
+    kselect_mo_bmate_model, kselect_mo_rmate_model.
   repeat apply conj; intros Hsel; apply (select_mo_spec D C wt trans front decns cfg d c Hsel).
 Qed.
 
